@@ -56,6 +56,7 @@ struct C13Engine : sim::Engine {
         }
         auto& st = dev.stats;
         ticks = st.threads;
+        sig2 = st.schedule_hash;
         std::string mode = p.get("mode");
         unsigned block = mode == "kernel" ? (unsigned)p.geti("k.block") : (unsigned)c.warp;
         sig = fnv1a(p.get("pipeline") + "|" + backend + "|" + mode + "|" + p.get("dtype") + "|" + p.get("dims") + "|b" + std::to_string(block) + "|g" + (mode == "kernel" ? p.get("k.grid_extra") : "ctx") +
